@@ -7,9 +7,9 @@ described, not materialised): the decision functions `decideOutbound` / `checkOu
 model's `frameOutbound` / `clientWrite` are defined through are run on the recorded lengths, with the
 facts of `Gen.limitFacts`.
 
-  frame  <idx> <path> <limit N|-> <notify N> <id N> <qlen N> <blen N> <rlen N>
+  frame  <idx> <path> <limits N|-|u|d> <notify N> <id N> <qlen N> <blen N> <rlen N>
       -> <idx> send <len> same | <idx> send <len> replaced <ec> <id> | <idx> drop   ; report <size> <limit> | report -
-  client <idx> <call|notify> <limit N|-> <id N> <qlen N> <blen N>
+  client <idx> <call|notify> <limits N|-|u|d> <id N> <qlen N> <blen N>
       -> <idx> ok wire <len> | <idx> MessageTooLarge <size> <limit> wire <len|->
 `rlen` is the length of the replacement's message text as recorded from the implementation (a
 parameter of the model).  `path = proxy` has no error hooks, so no report is observable there.
@@ -17,8 +17,15 @@ parameter of the model).  `path = proxy` has no error hooks, so no report is obs
 namespace Repe.Driver.Limits
 open Repe Repe.Driver
 
-def limitOf (s : String) : Option (Option Nat) :=
-  if s = "-" then some none else s.toNat?.map some
+/-- The limits expression a world was built with (`d` = none given, `u` = `unlimited()`, `-` =
+`default().with_assumed_peer_frame_limit(None)`, `N` = `…(Some(N))`), evaluated for the endpoint with
+the construction facts read off the source. -/
+def limitOfEp (ep : Endpoint) (s : String) : Option (Option Nat) :=
+  let c := Gen.configFacts
+  if s = "d" then some (effectiveLimit c ep none)
+  else if s = "u" then some (effectiveLimit c ep (some .unlimited))
+  else if s = "-" then some (effectiveLimit c ep (some (.assumed .dflt none)))
+  else s.toNat?.map fun n => effectiveLimit c ep (some (.assumed .dflt (some n)))
 
 def paths : List String := ["inline", "off", "joff", "push", "pushoff", "pushn", "bcast", "proxy"]
 
@@ -30,7 +37,7 @@ def step (st : Unit) (ws : List String) : Unit × String :=
   let f := Gen.limitFacts
   match ws with
   | ["frame", idx, path, lim, notify, id, qlen, blen, rlen] =>
-    match limitOf lim, paths.contains path, [notify, id, qlen, blen, rlen].all (·.isNat) with
+    match limitOfEp (if path = "proxy" then .proxy else .server) lim, paths.contains path, [notify, id, qlen, blen, rlen].all (·.isNat) with
     | some limit, true, true =>
       let (n, i, q, b, r) := (natOf notify, natOf id, natOf qlen, natOf blen, natOf rlen)
       if ¬ f.writerGuarded then (st, s!"{idx} send {48 + q + b} same ; report -")
@@ -43,7 +50,7 @@ def step (st : Unit) (ws : List String) : Unit × String :=
               ++ showReport path f size l)
     | _, _, _ => (st, idx ++ " bad-op")
   | ["client", idx, kind, lim, id, qlen, blen] =>
-    match limitOf lim, (kind == "call" || kind == "notify"), [id, qlen, blen].all (·.isNat) with
+    match limitOfEp .client lim, (kind == "call" || kind == "notify"), [id, qlen, blen].all (·.isNat) with
     | some limit, true, true =>
       let (q, b) := (natOf qlen, natOf blen)
       match checkOutbound f.cmp limit (lenOf f.clientLenTerms q b) with
